@@ -1,6 +1,7 @@
 package main
 
 import (
+	"os"
 	"encoding/json"
 	"fmt"
 	"math/rand"
@@ -17,7 +18,7 @@ func init() { register("fuzz", famFuzz{}) }
 
 type fuzzIn struct {
 	Q       []int  `json:"q"`
-	Data    string `json:"data"` // "hostile": the fixed hostile data set; "small": two plain records
+	Data    string `json:"data"` // "hostile": the fixed hostile data set; "nolong": the same without lines over 4 KiB; "small": two plain records
 	Invalid bool   `json:"invalid"`
 }
 
@@ -30,6 +31,8 @@ var hostileLines = func() []string {
 		deep, deepArr, deep[:100], long, "k=\"unterminated", "=v", "a=b\"c", "\xff\xfe\x00", "k=\xff", `{"a":{"b":[1,{"c":null}]}}`, `[1,2,3]`, `"just a string"`, `null`,
 		"\x1b[31mred\x1b[0m \x1b[", "10.0.0.1 ::1 999.999.999.999 1:2:3:4:5:6:7:8:9", "v=1e999 d=99999999999h sz=99999999999999999999PB", "v=NaN d=-5s sz=-1", `<a> <b>`, "a\nb\r\n",
 		`{"a.b":1,"a_b":2,"1a":3,"":4}`, "level=info msg=\"x\" msg=\"y\"", strings.Repeat("a", 70000),
+		// shapes the ip() scanners meet: colons without an address, addresses glued to punctuation, over-long groups
+		"::", "std::vector<int> x:: y", "fe80::1: timeout", "addr=::1 addr=10.0.0.1 addr=", "1.2.3.4.5.6 :::: 1:: ::g a:b::c", "[::1]:80 10.0.0.1:8080 256.1.1.1 1.2.3", ":", "::ffff:1.2.3.4 1::2::3",
 	}
 }()
 
@@ -49,6 +52,15 @@ func (famFuzz) Exec(scn int, raw json.RawMessage, t *Trace, _ map[string]string)
 	}
 	t.Scenario(scn, raw)
 	recs := hostileRecs()
+	if in.Data == "nolong" {
+		short := recs[:0:0]
+		for _, rec := range recs {
+			if len(rec.Line) <= 4096 {
+				short = append(short, rec)
+			}
+		}
+		recs = short
+	}
 	if in.Data == "small" {
 		recs = recs[:2]
 	}
@@ -61,7 +73,11 @@ func (famFuzz) Exec(scn int, raw json.RawMessage, t *Trace, _ map[string]string)
 		t.Ev(scn, "Call", F{"params": i + 1})
 		store := &MemStore{recs: recs, caps: CapsIn{Label: []string{}, Line: []string{}}}
 		eng := logqlengine.NewEngine(store, logqlengine.Options{})
+		t0 := time.Now()
 		r := evalWithWatchdog(eng, q, p, 15*time.Second)
+		if d := time.Since(t0); d > time.Second && os.Getenv("VERIF_SLOW") != "" {
+			fmt.Fprintf(os.Stderr, "slow: %v %q\n", d, q)
+		}
 		switch {
 		case r.Hang:
 			t.Ev(scn, "Hang", F{"detail_txt": "watchdog 15s"})
@@ -117,6 +133,9 @@ func (famFuzz) Gen(r *rand.Rand, n int, _ map[string]string) []any {
 					"| pattern \"<a><b>\"", "| pattern \"\"", "| pattern \"<a> <a>\"", "| json x=\"a[\"", "| json x=\"a..b\"", "| json x=\"[99999999999999999999]\"",
 					"| logfmt x=\"\\\"\"", "| regexp \"(?P<a>x)(?P<a>y)\"", "| regexp \"(?P<1a>x)\"", "|= ip(\"999.1.1.1\")", "| addr = ip(\"1.2.3.4-\")", "| addr = ip(\"::/999\")",
 					"| unwrap v", "| drop", "| keep ,", "| distinct",
+					// well-formed ip() filters over lines full of near-addresses
+					"|= ip(\"::1\")", "!= ip(\"192.168.0.0/16\")", "|= ip(\"10.0.0.1-10.0.0.9\")", "|= ip(\"fe80::/10\") != ip(\"1.2.3.4\")", "| logfmt | addr = ip(\"::1\")",
+					"| logfmt | addr != ip(\"10.0.0.0/8\")", "|= ip(\"::\")", "|= ip(\"0.0.0.0/0\")", "|= ip(\"::/0\")",
 					// the regexp stage: optional and alternative named groups that do not take part in a match, empty matches, nested groups
 					"| regexp \"(?P<ok>OK)|(?P<fail>FAIL)\"", "| regexp \"(?P<a>x)?(?P<b>y)\"", "| regexp \"(?P<lvl>\\\\w+)( (?P<rest>.*))?\"", "| regexp \"(?P<e>)\"",
 					"| regexp \"^(?P<k>[^=]*)=(?P<v>.*)$\"", "| regexp \"(?P<o>(?P<i>a)|b)+\"", "| regexp \"(?P<n>\\\\d+)?$\"", "| regexp \"(?s)(?P<all>.*)\" | all != \"\"", "| v > 1e999", "| v > 99999999999999999999h", "| line_format \"{{ alignLeft -1 .a }}{{ alignRight 99999 .a }}\"",
@@ -135,6 +154,13 @@ func (famFuzz) Gen(r *rand.Rand, n int, _ map[string]string) []any {
 					q += ")"
 				}
 				q += pick(r, []string{"", " / 0", " % 0", " ^ 0.5", " > bool 0", " or vector(1)", " * on (app) vector(2)"})
+			}
+		}
+		if strings.Contains(q, "ip(") {
+			// the ip() line scanner is quadratic in the length of a run of hexadecimal digits (it terminates: 2-3 s per
+			// evaluation on the 64 KiB lines); those lines are kept for a twentieth of the ip() cases only
+			if r.Intn(20) != 0 {
+				in.Data = "nolong"
 			}
 		}
 		in.Q = B(q)
